@@ -454,9 +454,55 @@ func genStraddleBody(w *bufio.Writer, r *rand.Rand) {
 	fmt.Fprintf(w, "end\n")
 }
 
+// genFragBoundaryBody: unsynced single puts fill the 64 KB log buffer so that a following
+// fragmented entry (value over 32 KB) has one of its fragment boundaries exactly at the buffer
+// boundary: the buffer writes itself out there, the rest of the entry is still in memory when the
+// process stops, and the log file ends exactly between two fragments (d = 0; d = +-1, 7 around
+// it). The harness then recovers, writes more, closes cleanly and reopens.
+func genFragBoundaryBody(w *bufio.Writer, r *rand.Rand) {
+	const buf = 65536
+	bigKey := fmt.Sprintf("big%d", r.Intn(10))
+	vl := 33000 + r.Intn(25000) // first + one full middle + a short last fragment, all below 64 KB
+	first := 7 + 13 + len(bigKey)
+	boundary := first // the file ends behind the first fragment
+	if r.Intn(3) == 0 {
+		boundary = first + 7 + 32768 // ... or behind the full middle fragment
+	}
+	d := []int{0, 0, 0, 1, -1, 7, -7}[r.Intn(7)]
+	target := buf - boundary + d
+	for target < 3000 {
+		target += buf
+	}
+	used := 0
+	i := 0
+	for used+1400 < target {
+		l := 700 + r.Intn(500)
+		key := fmt.Sprintf("s%03d", i)
+		fmt.Fprintf(w, "put %s @%d:%d\n", mkTok([]byte(key)), l, r.Intn(1<<20))
+		used += 7 + 13 + len(key) + 4 + l
+		i++
+	}
+	key := fmt.Sprintf("s%03d", i)
+	rest := target - used - (7 + 13 + len(key) + 4)
+	if rest >= 0 {
+		fmt.Fprintf(w, "put %s %s\n", mkTok([]byte(key)), lenTok(r, rest))
+		i++
+	}
+	fmt.Fprintf(w, "put %s @%d:%d\n", mkTok([]byte(bigKey)), vl, r.Intn(1<<20))
+	fmt.Fprintf(w, "put %s %s\n", mkTok([]byte("after")), mkTok([]byte("x")))
+	fmt.Fprintf(w, "crash wal.append.buffered %d\ncrash mgr.put.logged %d\ncrash wal.append.done %d\ncrash wal.append.buffered %d\ncrash none 0\n", i+1, i+1, i+1, i+2)
+	fmt.Fprintf(w, "end\n")
+}
+
 func genC02(w *bufio.Writer, seed int64, n int, tier string) {
 	r := rand.New(rand.NewSource(seed*7877 + 2))
 	for ci := 0; ci < n; ci++ {
+		if ci%6 == 2 {
+			mode := []string{"none", "batch"}[r.Intn(2)]
+			fmt.Fprintf(w, "case c02-%d-%d memsize=10000000 sync=%s\n", seed, ci, mode)
+			genFragBoundaryBody(w, r)
+			continue
+		}
 		if ci%6 == 5 {
 			mode := []string{"none", "batch"}[r.Intn(2)]
 			fmt.Fprintf(w, "case c02-%d-%d memsize=10000000 sync=%s\n", seed, ci, mode)
